@@ -220,7 +220,20 @@ func battery(m *pm.Model, dbs, tables, procs []string) []bstmt {
 		return false
 	}
 	k := 1000
-	for _, a := range m.Users() {
+	// at most four user accounts, those holding something (own or through a role) first
+	var users []*pm.Account
+	for pass := 0; pass < 2; pass++ {
+		for _, a := range m.Users() {
+			holds := false
+			for _, d := range dbs {
+				holds = holds || m.Accessible(a, d)
+			}
+			if holds == (pass == 0) && len(users) < 4 {
+				users = append(users, a)
+			}
+		}
+	}
+	for _, a := range users {
 		// the server builds sessions with the matched account's host as client address
 		add := func(q string, mixed bool) {
 			out = append(out, bstmt{user: a.User, addr: a.Host, sql: q, mixedCase: mixed})
@@ -289,9 +302,10 @@ func TestC41(t *testing.T) {
 	}
 	rapid.Check(t, func(rt *rapid.T) {
 		st.Eval()
-		mixed := !kf.Listed(kfCase) && rapid.Bool().Draw(rt, "mixedCaseObjects")
-		if kf.Listed(kfCase) {
+		mixed := rapid.Bool().Draw(rt, "mixedCaseObjects")
+		if mixed && kf.Listed(kfCase) {
 			st.Excluded(kfCase)
+			mixed = false
 		}
 		dbs, tables, procs := dbsLower, tblLower, prcLower
 		if mixed {
